@@ -156,13 +156,13 @@ Definition flow_plan2 (J : ginfo2) (Z : zone) (f : flow) : result (sector -> lis
             | Some e =>
                 if has_var s var then
                   if flow_distinct e src tg && negb (has_substring "__" (csrc ++ "_" ++ ctgt)) then
-                    match find_sec (e_xr e) Z with
-                    | Some xr =>
+                    match find_sec (e_xr e) Z, find_sec (e_fx e) Z with
+                    | Some xr, Some _ =>
                         if has_var xr csrc then
                           Ok (flow_lops2 e src tg csrc ctgt (fullcode s ++ "__" ++ var) (fullcode xr ++ "__" ++ csrc)
                                          (fullcode xr ++ "__" ++ csrc ++ "_" ++ ctgt) inc_s inc_t)
                         else Err KeyError
-                    | None => Err OtherError
+                    | _, _ => Err OtherError
                     end
                   else Err OutOfFuel
                 else Err KeyError
